@@ -15,7 +15,7 @@ def showKind : Kind → String
 def showErr : Err → String
   | .unclosedComment => "unclosed-comment" | .unclosedString => "unclosed-string"
   | .unclosedChar => "unclosed-char" | .badHexEscape => "bad-hex-escape"
-  | .invalidToken => "invalid-token" | .overrun => "overrun" | .fuel => "fuel"
+  | .invalidToken => "invalid-token" | .fuel => "fuel"
 
 def b01 (b : Bool) : String := if b then "1" else "0"
 
